@@ -71,6 +71,14 @@ def sources(ctx):
         ('kdmv-bad-version', b'KDMV' + struct.pack('<I', 9) + bytes(2040), [4, 63, 64, 512, 600]),
         ('vhdxfile-bad-table', bytes(big), [64, 4096, 196608, 262144, 266240]),
     ]
+    # a stream every inspector digests without complaint although one structure is odd (the VHDX
+    # size item declared 16 bytes long); a KDMV header announcing a footer on a stream too short
+    # to hold one (something is left to do at the end of the stream)
+    vx = B.vhdx(item_length=16, tail=2048)
+    s.append(('vhdx-item16', vx.data, [8, 196608, 262144, vx.size_end - 8, vx.size_end + 8]))
+    kd = B.vmdk_header(2048, 1, 1, 1, B.GD_AT_END) + B.vmdk_descriptor()
+    kd = kd + bytes(1024 - len(kd)) if len(kd) < 1024 else kd[:1400]
+    s.append(('kdmv-gdatend-short', kd, [4, 64, 512, 600, 1000]))
     if ctx.thorough:
         s.append(('luks', B.luks(length=2048, payload_sectors=1).data, [6, 108, 592, 593, 1000]))
         s.append(('iso+qcow2', B.iso().data[:0] + bytes(B.qcow2(length=512).data) + B.iso().data[512:],
